@@ -68,7 +68,7 @@ def gen(seed, idx, tier):
     if kind == "quadratic":
         q = [scen.r3(rnd.uniform(-0.15, 0.15)) for _ in range(3)]
     scn["gauge"] = {"c": c, "q": q}
-    return scen.maybe_restored(rnd, scn, 0.15)
+    return scen.maybe_moved(rnd, scen.maybe_restored(rnd, scn, 0.15), 0.08)
 
 
 def traj(h):
